@@ -84,11 +84,19 @@ Theorem store_mutex : forall s, reachable builds_system s ->
 Proof.
   intros s Rr pr1 pr2 i1 i2 I1 I2 N1 N2 T.
   pose proof (two_builds_safe s Rr) as Sf. unfold builds_safe in Sf.
+  apply andb_true_iff in Sf as [Sf _].
   repeat (apply andb_true_iff in Sf as [Sf ?]).
   destruct T as [[T1 T2]|[T1 T2]].
   - exact (guarded_exclusive touches_dir _ _ _ Sf pr1 pr2 i1 i2 I1 I2 N1 N2 T1 T2).
   - exact (guarded_exclusive touches_dir _ _ _ H0 pr1 pr2 i1 i2 I1 I2 N1 N2 T1 T2).
 Qed.
+
+Lemma nolock_verified : verify FUEL nolock_safe nolock_system = true.
+Proof. vm_compute. reflexivity. Qed.
+
+(* without any store lock the manifest and blob reads are still complete (atomic writes) *)
+Theorem store_without_lock_reads_complete : forall s, reachable nolock_system s -> nolock_safe s = true.
+Proof. exact (verify_sound _ _ _ nolock_verified). Qed.
 
 (* ---- 3. language server *)
 
@@ -122,7 +130,7 @@ Lemma std_reads : forall init, verify FUEL std_safe init = true ->
   r = Some (if f =? 1 then F1 else F2).
 Proof.
   intros init V s Rr pr f r Ipr Il.
-  pose proof (verify_sound _ _ _ V s Rr) as Sf.
+  pose proof (verify_sound _ _ _ V s Rr) as Sf. unfold std_safe in Sf. apply andb_true_iff in Sf as [Sf _].
   pose proof (reads_complete_spec _ _ _ _ Sf pr (D_STD, f) r Ipr Il eq_refl) as X.
   destruct r as [c|]; [|discriminate]. unfold std_ok in X. simpl in X.
   destruct (f =? 1); simpl in X; destruct X as [X|[]]; subst; reflexivity.
@@ -163,7 +171,7 @@ Theorem dep_checkout_safe : forall s, reachable dep_system s ->
   guarded_writes D_CO D_DEPS s = true.
 Proof.
   intros s Rr. pose proof (verify_sound _ _ _ dep_verified s Rr) as Sf.
-  unfold dep_safe in Sf. apply andb_true_iff in Sf as [S1 S2]. split; auto.
+  unfold dep_safe in Sf. apply andb_true_iff in Sf as [Sf _]. apply andb_true_iff in Sf as [S1 S2]. split; auto.
   intros pr r Ipr Il.
   pose proof (reads_complete_spec _ _ _ _ S1 pr (D_CO, 1) r Ipr Il eq_refl) as X.
   destruct r as [c|]; [|discriminate]. simpl in X. destruct X as [X|[]]; subst; reflexivity.
